@@ -336,7 +336,7 @@ ROLES = {
     26: {(): "set"},
 }
 # shapes that only take part in the parse / encode properties (C04, C05)
-PARSE_ONLY = {25, 26, 27, 28}
+PARSE_ONLY = {25, 26, 27, 28, 29}
 
 
 def family_ops():
